@@ -748,6 +748,19 @@ func (d *Driver) judgeC04() {
 					d.h.violate("C04", "validate-or-demote-false-but-still-leader", fmt.Sprintf("i%d ValidateTokenOrDemote returned false at %v but the term that began at %v continued", a.Inst, a.TRet, t.Start), a.TRet, a.SRet)
 				} else if d.expectsOnDemote(a.Inst, a.Gen, t.SEnd) {
 					cb := d.demoteCbAfter(a.Inst, a.Gen, t.SEnd)
+					// the call itself ended the term: "if it was leader, the demotion callback has
+					// been invoked" when the call returns - not handed to somebody who will get
+					// round to it (another goroutine's demotion is that goroutine's to report)
+					only := true // (the history does not say which of two overlapping calls made the demotion)
+					for _, b := range d.h.Apis {
+						if b != a && b.Inst == a.Inst && b.Gen == a.Gen && b.Kind == AValidateOD && b.SInv <= a.SRet && (b.TRet < 0 || b.SRet >= a.SInv) {
+							only = false
+						}
+					}
+					if only && t.SEnd >= a.SInv && t.SEnd <= a.SRet && strings.Contains(t.EndStack, "ValidateTokenOrDemote") && (cb == nil || cb.Step > a.SRet) && !d.stopFailed(t.Fall, o) {
+						d.h.violate("C04", "validate-or-demote-returned-before-its-ondemote", fmt.Sprintf("i%d ValidateTokenOrDemote ended the term at %v and returned false at %v, but OnDemote had not been invoked by then", a.Inst, t.End, a.TRet), a.TRet, a.SRet)
+						continue
+					}
 					// by the next quiescent point after the return: same virtual instant, stalls allowed for
 					if (cb == nil || cb.T > a.TRet+d.stallIn(a.Inst, t.End, cb.T)) && !d.stopFailed(t.Fall, o) && !stopStack(t.EndStack) {
 						d.h.violate("C04", "validate-or-demote-false-without-ondemote", fmt.Sprintf("i%d ValidateTokenOrDemote returned false at %v; leadership ended at %v but OnDemote had not run", a.Inst, a.TRet, t.End), a.TRet, a.SRet)
